@@ -14,7 +14,8 @@
    thresholds come from the translator (Gen_Report): changing `<=` to `<` at
    the delta threshold or `<` to `<=` at the size threshold breaks
    [C18_delta_iff] / [C18_sizes_iff]. *)
-From Robsd Require Import Report.DurationSpec Report.ReportProofs Report.DurationProofs Inv.LsProofs.
+From Robsd Require Import Report.DurationSpec Report.ReportProofs Report.DurationProofs Report.DurationMore
+                          Report.ShellTie Inv.LsProofs.
 From RobsdGen Require Gen_Step.
 From Coq Require Import Sorting.Sorted Sorting.Permutation.
 Local Open Scope N_scope.
@@ -31,10 +32,42 @@ Theorem C18_total : forall m rows,
 Proof. exact total_spec. Qed.
 Print Assumptions C18_total.
 
-Theorem C18_total_in_report : forall m cfg rows fs rep,
-  report_struct_rows m cfg rows fs = ROk rep -> rp_duration rep = stats_duration m rows.
-Proof. exact report_duration_line. Qed.
-Print Assumptions C18_total_in_report.
+(* the total by cases, without the filter: no end row - the accumulated duration and delta 0; otherwise the
+   duration and delta of the FIRST end row *)
+Theorem C18_total_declarative : forall m rows,
+  ((forall r, In r rows -> r_name r <> spec_name_end) ->
+     stats_total m rows = (spec_accumulated m rows, 0%Z)) /\
+  (forall a e b, rows = a ++ e :: b -> (forall r, In r a -> r_name r <> spec_name_end) -> r_name e = spec_name_end ->
+     stats_total m rows = (r_duration e, r_delta e)).
+Proof. exact total_declarative. Qed.
+Print Assumptions C18_total_declarative.
+
+(* regress: rows are recorded in start order, so last minus first start time is latest minus earliest *)
+Theorem C18_wall_is_max_minus_min : forall rows,
+  StronglySorted (fun a b => (r_time a <= r_time b)%Z) rows -> rows <> [] ->
+  exists r0 rl, In r0 rows /\ In rl rows /\ spec_wall rows = (r_time rl - r_time r0)%Z /\
+    forall r, In r rows -> (r_time r0 <= r_time r <= r_time rl)%Z.
+Proof. exact wall_is_max_minus_min. Qed.
+Print Assumptions C18_wall_is_max_minus_min.
+
+(* the Duration: line of the stats block of a report that is produced, as text of the specification *)
+Theorem C18_duration_line : forall m cfg rows fs rep,
+  report_struct_rows m cfg rows fs = ROk rep ->
+  let '(d, delta) := spec_total m rows in
+  in_range d = true -> delta_in_range delta = true ->
+  rp_duration rep = spec_duration_text d delta 60.
+Proof. exact duration_line. Qed.
+Print Assumptions C18_duration_line.
+
+(* the Duration: line of the k-th section: that of the k-th listed row, any non-zero delta shown (threshold 0) *)
+Theorem C18_step_duration_line : forall m cfg rows fs rep k s,
+  report_struct_rows m cfg rows fs = ROk rep -> nth_error (rp_sections rep) k = Some s ->
+  exists r, nth_error (filter (spec_shown m cfg fs) rows) k = Some r /\
+    s_name s = r_name r /\ s_duration s = step_duration r /\
+    (in_range (r_duration r) = true -> delta_in_range (r_delta r) = true ->
+       s_duration s = spec_duration_text (r_duration r) (r_delta r) 0).
+Proof. exact step_duration_line. Qed.
+Print Assumptions C18_step_duration_line.
 
 (* HH:MM:SS: h*3600 + m*60 + s = d with 0 <= m, s < 60, each part printed with
    two digits, wider hours printed in full ([two_digits]) *)
@@ -63,7 +96,8 @@ Theorem C18_delta_iff : forall d delta thr,
 Proof. exact delta_iff. Qed.
 Print Assumptions C18_delta_iff.
 
-Theorem C18_thresholds :
+(* pin of the generated constants (a Remark: reflexivity, not a result) *)
+Remark C18_thresholds :
   threshold_duration_s = 60%Z /\ step_delta_threshold = 0%Z /\
   threshold_size_b = 1048576%Z /\ threshold_size_ramdisk_b = 1024%Z.
 Proof. exact thresholds_are. Qed.
@@ -102,10 +136,12 @@ Theorem C18_previous : forall cfg fs ents p,
 Proof. exact previous_is_greatest. Qed.
 Print Assumptions C18_previous.
 
-Theorem C18_sizes_in_report : forall m cfg fs,
+(* the Size: lines of a report that is produced are the specified ones *)
+Theorem C18_sizes_in_report : forall m cfg rows fs rep,
+  report_struct_rows m cfg rows fs = ROk rep ->
   (forall cur, f_rel fs = Some cur -> Forall (fun f => (0 <= rf_size f)%Z) cur) ->
-  report_sizes m cfg fs = spec_sizes m cfg fs.
-Proof. exact report_sizes_spec. Qed.
+  rp_sizes rep = spec_sizes m cfg fs.
+Proof. exact sizes_lines. Qed.
 Print Assumptions C18_sizes_in_report.
 
 (* size format: unit by magnitude, one decimal, the printed tenths t satisfy
@@ -129,9 +165,17 @@ Print Assumptions C18_size_format.
    and the C computation (steps_total_duration) agree, and both are the
    specified sum / wall clock difference *)
 Theorem C18_shell_equals_C : forall m rows,
-  sh_total m rows = c_total m rows /\ c_total m rows = spec_accumulated m rows.
-Proof. exact shell_equals_C. Qed.
+  gen_sh_total m rows = c_total m rows /\ c_total m rows = spec_accumulated m rows.
+Proof. exact shell_translated_equals_C. Qed.
 Print Assumptions C18_shell_equals_C.
+
+(* [gen_sh_total] is assembled from what the translator reads in util.sh duration_total and util-regress.sh
+   regress_duration_total (mode dispatch, start index, increment, step_skip's test, the name passed over,
+   the accumulation; the indices 1 and -1, the defaults, the subtraction); it is the hand-written model
+   [sh_total] the correspondence harness runs *)
+Theorem C18_shell_translated : forall m rows, sh_total m rows = gen_sh_total m rows.
+Proof. exact sh_total_translated. Qed.
+Print Assumptions C18_shell_translated.
 
 (* the row step_eval <i> delivers to the shell loop is the one robsd-step -R -i <i>
    selects in C01's model of that helper *)
@@ -141,22 +185,46 @@ Theorem C18_shell_step_eval : forall (rows : list row) i,
 Proof. exact sh_select_is_robsd_step. Qed.
 Print Assumptions C18_shell_step_eval.
 
-(* no int64_t overflow in the sum for fewer than 2^22 rows within +-2^40 *)
-Theorem C18_total_fits : forall rows,
+(* no int64_t overflow: for fewer than 2^22 rows with durations within +-2^40 (the -1 of in-flight rows
+   included) EVERY value the accumulator takes - in steps_total_duration (the sum over every prefix of the
+   rows) and in the shell loop (after any number of iterations) - is strictly inside int64_t; so is the
+   regress difference for start times below 2^62 in magnitude *)
+Theorem C18_no_overflow : forall rows,
+  (Z.of_nat (List.length rows) < two_pow_22)%Z ->
   Forall (fun r => (Z.abs (r_duration r) <= two_pow_40)%Z) rows ->
-  (Z.abs (spec_sum rows) <= Z.of_nat (List.length rows) * two_pow_40)%Z.
-Proof. exact total_fits. Qed.
-Print Assumptions C18_total_fits.
+  (forall k, fits64 (fold_left total_step (firstn k rows) 0%Z)) /\
+  (forall fuel, fits64 (sh_total_loop fuel 1 rows 0%Z)).
+Proof. exact (fun rows Hn H => conj (no_overflow_C rows Hn H) (no_overflow_shell rows Hn H)). Qed.
+Print Assumptions C18_no_overflow.
+
+Theorem C18_no_overflow_wall : forall rows,
+  Forall (fun r => (Z.abs (r_time r) < two_pow_62)%Z) rows -> fits64 (spec_wall rows).
+Proof. exact no_overflow_wall. Qed.
+Print Assumptions C18_no_overflow_wall.
+
+(* in-flight records (duration -1, delta, time: any values) do not break the report: whether a report is
+   produced, its status, and its sections with their names, exit codes, log names and bodies do not depend
+   on the duration, delta and time fields of any row *)
+Theorem C18_inflight_does_not_break : forall m cfg fs rows rows',
+  map strip rows = map strip rows' ->
+  (report_struct_rows m cfg rows fs = RErr <-> report_struct_rows m cfg rows' fs = RErr) /\
+  report_status m rows = report_status m rows' /\
+  (forall rep rep', report_struct_rows m cfg rows fs = ROk rep -> report_struct_rows m cfg rows' fs = ROk rep' ->
+     rp_status rep = rp_status rep' /\
+     map (fun s => (s_name s, s_exit s, s_log s, s_body s)) (rp_sections rep) =
+     map (fun s => (s_name s, s_exit s, s_log s, s_body s)) (rp_sections rep')).
+Proof. exact inflight_does_not_break. Qed.
+Print Assumptions C18_inflight_does_not_break.
 
 (* the oracles applied to the implementation's output accept the model's own output *)
 Theorem C18_model_passes_oracles : forall x rows rep,
   rows_of x = Some rows ->
   report_struct_rows (x_mode x) (cfg_of x) rows (files_of x) = ROk rep ->
   spec_ok_total x (rp_duration rep) = true /\
-  (forall k r, nth_error (filter (spec_shown (x_mode x) (cfg_of x) (files_of x)) rows) k = Some r ->
-     spec_ok_step_duration x k (step_duration r) = true) /\
+  (forall k s, nth_error (rp_sections rep) k = Some s -> spec_ok_step_duration x k (s_duration s) = true) /\
+  spec_ok_sizes x (rp_sizes rep) = true /\
   spec_ok_shell x (render_Z (sh_total (x_mode x) rows)) = true.
-Proof. exact model_passes_duration_oracles. Qed.
+Proof. exact model_passes_all_duration_oracles. Qed.
 Print Assumptions C18_model_passes_oracles.
 
 (* non-vacuity: 3661 s with a delta of +70 s; a tie at 2^18 * 5 bytes (1.25M
